@@ -27,7 +27,7 @@ pub fn lane_cli_timing(seed: u64, stride: usize) -> Vec<Scenario> {
     lane_timing(Tier::Cli, seed)
         .into_iter()
         .enumerate()
-        .filter(|(i, s)| i % stride.max(1) == 0 || s.lane.contains("/with-"))
+        .filter(|(i, s)| i % stride.max(1) == 0 || s.lane.contains("/with-") || s.lane.contains("/wait-DurOver"))
         .map(|(_, mut s)| {
             s.lane = format!("cli-{}", s.lane);
             s
@@ -307,10 +307,11 @@ pub fn lane_state(seed: u64, n: usize) -> Vec<Scenario> {
         let mut g = G::new(seed ^ 0x57a7e ^ ((i as u64) << 16));
         let mut sim = base_sim(g.rng.next_u64());
         sim.swarm = swarm(&mut g);
-        let n_tests = 2 + g.below(5) as usize;
+        // (every twentieth document is long: two-digit execution indices)
+        let n_tests = if i % 20 == 7 { 11 + g.below(4) as usize } else { 2 + g.below(5) as usize };
         let mut tests = vec![];
         for _ in 0..n_tests {
-            let plan = match g.below(10) {
+            let plan = match g.below(if n_tests > 10 { 14 } else { 10 }) {
                 0 => Plan::new(Fate::Detached),
                 1 => Plan::new(Fate::Code {
                     code: g.below(200) as i32,
@@ -1093,7 +1094,7 @@ pub fn lane_summary(seed: u64, stride: usize) -> Vec<Scenario> {
         .map(|mut s| {
             s.lane = format!("summary-{}", s.lane);
             s.pretty = true;
-            s.check = vec!["C20".into()];
+            s.check = vec!["C20".into(), "C15".into()];
             s
         })
         .collect()
@@ -1147,6 +1148,10 @@ pub fn lane_directory(seed: u64) -> Vec<Scenario> {
             docs.push(doc("suite/sub/deeper/nested.md", Format::Md, deep));
             let deep_t = vec![g.test(&Plan::new(Fate::Pass), &mut sim.programs)];
             docs.push(doc("suite/sub/nested.cram", Format::Cram, deep_t));
+            // a sub-directory that is a symbolic link to a directory elsewhere
+            let mut linked = doc("suite/via-link/linked.md", Format::Md, vec![g.test(&Plan::new(Fate::Pass), &mut sim.programs), g.test(&Plan::new(Fate::WrongOutput), &mut sim.programs)]);
+            linked.stored_at = Some("elsewhere/real dir/linked.md".into());
+            docs.push(linked);
             // files the scan must leave alone: other extensions, although they look like documents
             for other in ["suite/notes.txt", "suite/doc0.md.bak", "suite/sub/readme.mdx", "suite/sub/case.t.orig"] {
                 let mut o = doc(other, if other.contains(".t.") { Format::Cram } else { Format::Md }, vec![g.test(&Plan::new(Fate::WrongOutput), &mut sim.programs)]);
@@ -1292,7 +1297,18 @@ pub fn lane_stream_layers(seed: u64) -> Vec<Scenario> {
                         p.cfg.output_stream = inline;
                         let t = g.test(&p, &mut sim.programs);
                         let t2 = g.test(&Plan::new(Fate::Pass), &mut sim.programs);
-                        let mut d = doc("layers.md", Format::Md, vec![t, t2]);
+                        // a test case without expectations that writes to ONE descriptor only:
+                        // it passes iff that is not the one its configuration looks at
+                        let mut t3 = g.test(&Plan::new(Fate::Pass), &mut sim.programs);
+                        let fd = if matching { 2 } else { 1 };
+                        sim.programs.insert(
+                            t3.nonce.clone(),
+                            // (the blank makes the line unfit as a generated expectation: the test
+                            // case gets none, and passes iff the stream it looks at is empty)
+                            vec![Op::Out { fd, data: format!("only {}\n", &t3.nonce[..6]).as_str().into() }, Op::Status { code: 0 }],
+                        );
+                        t3.cfg.output_stream = inline;
+                        let mut d = doc("layers.md", Format::Md, vec![t, t2, t3]);
                         d.defaults.output_stream = dflt;
                         let mut cli = Cli::default();
                         cli.combine_output = flag;
@@ -1322,11 +1338,14 @@ pub fn lane_cram_sizes(seed: u64) -> Vec<Scenario> {
     let mut out = vec![];
     let mut g = G::new(seed ^ 0xc2a3);
     for (n, compact) in [(1usize, false), (2, false), (9, false), (10, false), (11, false), (13, false), (2, true), (4, true), (10, true), (13, true)] {
-        for special in ["all-pass", "fail-last", "fail-first", "code-mid", "skip-last", "exit-mid"] {
+        for special in ["all-pass", "fail-last", "fail-first", "code-mid", "code-late", "skip-last", "exit-mid"] {
             let mut sim = base_sim(g.rng.next_u64());
             let mut tests = vec![];
             for k in 0..n {
                 let plan = match special {
+                    // three-digit exit codes behind two-digit indices
+                    "code-late" if k + 1 == n => Plan::new(Fate::Code { code: 255, expected: Some(255), exit_shell: false }),
+                    "code-late" if k + 2 == n => Plan::new(Fate::Code { code: 127, expected: None, exit_shell: false }),
                     "fail-last" if k + 1 == n => Plan::new(Fate::WrongOutput),
                     "fail-first" if k == 0 => Plan::new(Fate::WrongOutput),
                     "code-mid" if k == n / 2 => Plan::new(Fate::Code { code: 100 + k as i32, expected: Some(100 + k as i32), exit_shell: false }),
@@ -1787,4 +1806,24 @@ pub fn lane_included_limits(seed: u64) -> Vec<Scenario> {
         }
     }
     out
+}
+
+/// C18: scrut's own stdout / stderr are cut off in the middle of a run (`scrut test ... | head`):
+/// however scrut ends then, it must not leave its directories behind
+pub fn lane_closed_output(seed: u64) -> Vec<Scenario> {
+    lane_env(seed ^ 0xc105ed)
+        .into_iter()
+        .filter(|s| !s.lane.contains("/keep/") && s.docs.iter().all(|d| d.raw.is_none()) && s.cli.missing_paths.is_empty() && s.cli.shell.is_none())
+        .step_by(5)
+        .enumerate()
+        .map(|(i, mut s)| {
+            s.lane = format!("closed-output-{}", s.lane);
+            s.sim.faults.push(Fault::OutputClosed { nth: (i % 3) as u32 });
+            s.cli.debug = i % 2 == 0;
+            // (no report can be expected; only the directories are looked at)
+            s.pretty = true;
+            s.check = vec!["C18".into()];
+            s
+        })
+        .collect()
 }
